@@ -214,7 +214,7 @@ Section Parser.
     match agents, asts with
     | _ :: ag, e :: r =>
         do c <- (match e with
-                 | SList (Atom "nop" :: _) => Ok nop_call
+                 | SList (Atom h :: _) => if String.eqb h "nop" then Ok nop_call else parse_call e
                  | _ => parse_call e
                  end);
         do cs <- parse_joint ag r; Ok (c :: cs)
